@@ -36,11 +36,12 @@ struct Net {
     std::function<bool(int fault, Msg &m, int64_t a1, int64_t a2)> world_fault;  // returns true if applied
     std::vector<bool> crash_done;
     int64_t last_fault_time = 0;
+    std::set<int> fault_sids;          // sessions in which some fault fired (or a long delay was applied)
 
     void init(const Plan *p, Result *res, const char *const *names) {
         plan = p; r = res; kind_names = names; now = 0; seq = 0; delivered = 0;
         while (!q.empty()) q.pop();
-        seen.clear();
+        seen.clear(); fault_sids.clear(); last_fault_time = 0;
         crash_done.assign(p->ops.size(), false);
     }
     std::string name(int kind) const { return kind_names ? kind_names[kind] : std::to_string(kind); }
@@ -50,7 +51,7 @@ struct Net {
     void send(Msg m) {
         m.sent = m.bytes; m.copy = 0; m.misdelivered = false;
         int64_t delay = 1;
-        for (const Op &o : plan->ops) if (o.k == "nd" && match(o, m)) delay = std::max<int64_t>(0, o.arg(5));
+        for (const Op &o : plan->ops) if (o.k == "nd" && match(o, m)) { delay = std::max<int64_t>(0, o.arg(5)); if (delay > 50) fault_sids.insert(m.sid); }
         bool drop = false, dup = false;
         for (const Op &o : plan->ops) {
             if (o.k != "nf" || !match(o, m)) continue;
@@ -78,7 +79,7 @@ struct Net {
                 } break;
                 default: fired = world_fault ? world_fault(f, m, a1, a2) : false; break;
             }
-            if (fired) { r->fault(std::string("net.") + fault_name(f)); last_fault_time = now; }
+            if (fired) { r->fault(std::string("net.") + fault_name(f)); last_fault_time = now; fault_sids.insert(m.sid); }
         }
         seen[m.kind].push_back(m.sent);
         if (drop) { r->ev("drop " + desc(m)); return; }
